@@ -8,7 +8,7 @@ ids="$@"; [ -z "$ids" ] && ids=$(ls seeded)
 [ -n "$(git -C /repo status --porcelain)" ] && { echo "/repo not clean"; exit 2; }
 for id in $ids; do
   P=${id%%-*}
-  if ! git -C /repo apply seeded/$id/patch.diff 2>/dev/null; then echo "$id: patch does not apply"; continue; fi
+  if ! git -C /repo apply /verif/seeded/$id/patch.diff 2>/dev/null; then echo "$id: patch does not apply"; continue; fi
   out=$(GOWP_SCRATCH=/var/tmp/recheck.$$ ./check $P quick 2>&1); st=$?
   git -C /repo checkout -- .
   if [ $st -eq 1 ]; then echo "$id: caught  $(echo "$out" | grep -E '^FAILED|^bounded-|^contract-binding' | head -1 | cut -c1-150)"; elif [ $st -eq 0 ]; then echo "$id: MISSED"; else echo "$id: tool failure (exit $st)"; fi
